@@ -268,7 +268,7 @@ class Described(Exception):
     pass
 
 
-def make_regions_run(nxp):
+def make_regions_run(nxp, explicit_sol=False):
     """Real makeRegions up to the hand-over to describeSingle/DoubleNull: which X-points are
     kept (normalised psi below psinorm_sol AND inside the wall), in which order, and which
     description is chosen.  polygons.intersect is used through its contract (C20): the stub
@@ -288,7 +288,10 @@ def make_regions_run(nxp):
         psinorm_sol = ctx.real("psinorm_sol")
         pn = {k: ctx.real("psinorm_" + k) for k in ("core", "sol_inner", "pf_lower", "pf_upper")}
         explicit_pf_upper = ctx.real("psi_pf_upper_given")
-        eq.user_options = types.SimpleNamespace(psi_core=None, psinorm_core=pn["core"], psi_sol=None, psinorm_sol=psinorm_sol, psi_sol_inner=None, psinorm_sol_inner=pn["sol_inner"], psi_pf_lower=None, psinorm_pf_lower=pn["pf_lower"], psi_pf_upper=explicit_pf_upper, psinorm_pf_upper=pn["pf_upper"], poloidal_spacing_delta_psi=0.001)
+        # explicit_sol: the psi_sol option is given; it overrides psinorm_sol (left free: a stale or
+        # default value) everywhere -- in particular in deciding which X-points are in range
+        psi_sol_given = ctx.real("psi_sol_given") if explicit_sol else None
+        eq.user_options = types.SimpleNamespace(psi_core=None, psinorm_core=pn["core"], psi_sol=psi_sol_given, psinorm_sol=psinorm_sol, psi_sol_inner=None, psinorm_sol_inner=pn["sol_inner"], psi_pf_lower=None, psinorm_pf_lower=pn["pf_lower"], psi_pf_upper=explicit_pf_upper, psinorm_pf_upper=pn["pf_upper"], poloidal_spacing_delta_psi=0.001)
         wall = [(1.0, -1.0), (2.0, -1.2), (2.2, 1.0), (0.9, 1.1)]  # anticlockwise, NOT explicitly closed (C11 wall contract)
         eq.wall = [Point2D(*w) for w in wall]
         asked = []
@@ -327,12 +330,12 @@ def make_regions_run(nxp):
                 q["k"] = k
             # requested radial limits: psi_* if given, else psi_axis + psinorm_* (psi_sep[0] - psi_axis), each from ITS OWN option
             to_psi = lambda x: eq.psi_axis + x * (psis[0] - eq.psi_axis)
-            ctx.oblige(And(eq.psi_core == to_psi(pn["core"]), eq.psi_sol == to_psi(psinorm_sol), eq.psi_sol_inner == to_psi(pn["sol_inner"]), eq.psi_pf_lower == to_psi(pn["pf_lower"])), "psi_core / psi_sol / psi_sol_inner / psi_pf_lower from the psinorm option of the same name (primary separatrix = 1)")
+            ctx.oblige(And(eq.psi_core == to_psi(pn["core"]), eq.psi_sol == (psi_sol_given if explicit_sol else to_psi(psinorm_sol)), eq.psi_sol_inner == to_psi(pn["sol_inner"]), eq.psi_pf_lower == to_psi(pn["pf_lower"])), "psi_core / psi_sol / psi_sol_inner / psi_pf_lower from the psinorm option of the same name (primary separatrix = 1)")
             ctx.oblige(eq.psi_pf_upper == explicit_pf_upper, "an explicitly given psi_* limit takes precedence over its psinorm_*")
             pn = lambda v: (v - eq.psi_axis) / (psis[0] - eq.psi_axis)
             keep_spec = []
             for k in range(nxp):
-                in_range = pn(psis[k]) < psinorm_sol
+                in_range = pn(psis[k]) < (pn(psi_sol_given) if explicit_sol else psinorm_sol)
                 qs = [q for q in asked if q.get("k") == k]
                 crossed = qs[0]["answer"] if qs else None
                 keep_spec.append((in_range, crossed))
@@ -343,7 +346,7 @@ def make_regions_run(nxp):
                 for k in range(nxp):
                     in_range, crossed = keep_spec[k]
                     if k in kept:
-                        ctx.oblige(in_range, "kept X-point %d has normalised psi below psinorm_sol" % k)
+                        ctx.oblige(in_range, "kept X-point %d has normalised psi below that of the SOL limit in force (psi_sol if given, else psinorm_sol)" % k)
                         ctx.oblige(TRUE(crossed is not None), "kept X-point %d was tested against the wall" % k)
                         if crossed is not None:
                             ctx.oblige(Not(crossed), "kept X-point %d is inside the wall" % k)
@@ -582,6 +585,8 @@ def build(S):
         S.under_contract(FN_MR)
         for nxp in (1, 2, 3):
             S.contract("makeRegions[X-point filter, %d found]" % nxp, FN_MR, make_regions_run(nxp), expected_exceptions=(), shape="%d X-points with symbolic psi and positions; polygons.intersect by contract" % nxp)
+            if nxp <= 2:
+                S.contract("makeRegions[X-point filter, %d found, explicit psi_sol]" % nxp, FN_MR, make_regions_run(nxp, explicit_sol=True), expected_exceptions=(), shape="%d X-points with symbolic psi and positions; polygons.intersect by contract" % nxp)
         for fam in ("monotone", "overshoot", "minimum-away"):
             S.contract("find_critical[tail, %s]" % fam, FN, make_tail_run(fam), shape="2 O-points, 2 X-points, 50-point line profile of the stated family")
 
